@@ -102,6 +102,52 @@ fn backup_logged(sim: &mut Sim, mode: &Mode, model: &FsModel, opts: &BackupOptio
     })
 }
 
+/// clone a directory of `parent` (that still exists in `model`) under its name minus the last byte, same
+/// metadata, regular files with other bytes of the same length
+fn clone_dir_before(rng: &mut Rng, model: &mut FsModel, parent: &FsModel) -> Option<String> {
+    let dirs: Vec<PathKey> = parent
+        .entries
+        .iter()
+        .filter(|(k, e)| {
+            matches!(e.kind, Kind::Dir)
+                && k.last().is_some_and(|n| n.len() >= 2)
+                && model.entries.get(*k).is_some_and(|m| matches!(m.kind, Kind::Dir))
+                && parent.entries.iter().any(|(k2, e2)| k2.len() == k.len() + 1 && k2.starts_with(k) && matches!(&e2.kind, Kind::File(b) if !b.is_empty()) && e2.links == 1)
+        })
+        .map(|(k, _)| k.clone())
+        .collect();
+    if dirs.is_empty() {
+        return None;
+    }
+    let d = dirs[rng.usize(dirs.len())].clone();
+    let mut nk = d.clone();
+    let last = nk.last_mut().unwrap();
+    let _ = last.pop();
+    if model.entries.contains_key(&nk) || parent.entries.contains_key(&nk) {
+        return None;
+    }
+    // no sibling may sort between the new name and the original (in the parent)
+    let between = parent.entries.keys().any(|k| k.len() == d.len() && k[..d.len() - 1] == d[..d.len() - 1] && k > &nk && k < &d);
+    if between {
+        return None;
+    }
+    let sub: Vec<(PathKey, crate::model::Entry)> = parent.entries.iter().filter(|(k, _)| k.starts_with(&d)).map(|(k, e)| (k.clone(), e.clone())).collect();
+    let mut inode = 7_000_000 + rng.below(1_000_000);
+    for (k, mut e) in sub {
+        let mut k2 = nk.clone();
+        k2.extend(k[d.len()..].iter().cloned());
+        if let Kind::File(b) = &e.kind {
+            let nb: Vec<u8> = b.iter().map(|x| x.wrapping_add(3)).collect();
+            e.kind = Kind::File(Arc::new(nb));
+        }
+        e.links = 1;
+        e.inode = inode;
+        inode += 1;
+        let _ = model.entries.insert(k2, e);
+    }
+    Some(format!("clone-dir {} -> {}", show_key(&d), show_key(&nk)))
+}
+
 impl Prop for C11 {
     fn id(&self) -> &'static str {
         "C11"
@@ -116,7 +162,7 @@ impl Prop for C11 {
         }
     }
     fn rule(&self) -> &'static str {
-        "one run = 1-3 parent generations of an evolving source (edit scripts in which every content change also changes mtime/ctime, plus type changes file<->dir<->symlink, touch, rename, add/remove, or no change at all), then the SAME current source is backed up twice on forks of one frozen store: \
+        "one run = 1-3 parent generations of an evolving source (edit scripts in which every content change also changes mtime/ctime, plus type changes file<->dir<->symlink, touch, rename, add/remove, a directory copied with its metadata under a name sorting directly before the original with the copies' contents changed, a file whose content changed while its modification time is no longer reported, or no change at all), then the SAME current source is backed up twice on forks of one frozen store: \
          A with parent options (implicit latest, explicit 1-2 parents, ignore-ctime, ignore-inode, skip-if-unchanged) and B with force (reads every file). Optionally some data blobs of the parent are dropped from the index first. \
          Oracles: tree id of A == tree id of B; A reads back equal to the source model; every file whose parent blobs are not all indexed was opened again by A; with the plain implicit parent the summary counters files_new/changed/unmodified equal the model's classification; \
          skip-if-unchanged writes a snapshot iff the tree differs from the parent's. evaluations = 1 comparison per run; non-trivial = A opened fewer files than B (the parent shortcut was taken) or blobs were dropped; distinct = hash(options, models)"
@@ -242,6 +288,44 @@ impl Prop for C11 {
                     if !model.entries.contains_key(&k2) {
                         let e = model.entries.remove(k).unwrap();
                         let _ = model.entries.insert(k2, e);
+                    }
+                }
+            }
+            // a directory copied with its metadata (cp -a) under a name that sorts directly before the
+            // original, the copies' contents changed without changing size or times: the copies are new
+            // files (there is no parent node for them) and must be read
+            if rng.chance(1, 3) {
+                if let Some(desc) = clone_dir_before(&mut rng, &mut model, &parent_model) {
+                    rep.fire("directory_cloned_before_its_original", 1);
+                    hist.push(desc);
+                }
+            }
+            // a file whose content changed (same size) and whose modification time is no longer reported
+            if rng.chance(1, 4) {
+                let cands: Vec<PathKey> = model
+                    .entries
+                    .iter()
+                    .filter(|(k, e)| matches!(&e.kind, Kind::File(b) if !b.is_empty()) && e.links == 1 && parent_model.entries.get(*k).is_some_and(|p| matches!(p.kind, Kind::File(_)) && p.links == 1))
+                    .map(|(k, _)| k.clone())
+                    .collect();
+                if !cands.is_empty() {
+                    let k = cands[rng.usize(cands.len())].clone();
+                    let pe = parent_model.entries[&k].clone();
+                    let e = model.entries.get_mut(&k).unwrap();
+                    if let (Kind::File(pb), true) = (&pe.kind, true) {
+                        // parent's size and ctime, other bytes, no mtime
+                        let mut nb: Vec<u8> = pb.to_vec();
+                        for b in &mut nb {
+                            *b = b.wrapping_add(1);
+                        }
+                        if !nb.is_empty() {
+                            e.kind = Kind::File(Arc::new(nb));
+                            e.ctime = pe.ctime;
+                            e.inode = pe.inode;
+                            e.mtime = (crate::model::NO_MTIME, 0);
+                            rep.fire("file_changed_and_lost_its_mtime", 1);
+                            hist.push(format!("no-mtime {}", show_key(&k)));
+                        }
                     }
                 }
             }
